@@ -969,7 +969,10 @@ class Interp:
                 self.raise_py("TypeError", node, "ordering")
         if is_strlike(a) or is_strlike(b) or a is None or b is None:
             if is_strlike(a) and is_strlike(b):
-                raise Unsupported("string ordering at line %d" % node.lineno)
+                # Python orders strings lexicographically, which pyvc does not model: the result is an
+                # unconstrained boolean (sound over-approximation; a refutation that depends on it is
+                # confirmed or dismissed by the CPython replay of the counter-model)
+                return mk_bool(self.ctx.fresh_bool("strorder!line%d" % getattr(node, "lineno", 0)))
             self.raise_py("TypeError", node, "ordering str/int")
         x, y = zint(a), zint(b)
         return mk_bool({ast.Lt: x < y, ast.LtE: x <= y, ast.Gt: x > y, ast.GtE: x >= y}[op])
@@ -1123,6 +1126,15 @@ class Interp:
         b = _BUILTINS.get(id(fn))
         if b is not None:
             return b(self, node, *args, **kwargs)
+        import types
+        if isinstance(fn, types.FunctionType) and getattr(fn, "__module__", None) and self.info.qualname.startswith(fn.__module__ + ".") \
+                and "." not in fn.__qualname__:
+            # a helper of the same module that has no contract of its own (e.g. one extracted by a refactoring) is
+            # executed from its body, like any other statement of the function under verification
+            eng.auto_inlined = getattr(eng, "auto_inlined", set()) | {fn.__module__ + "." + fn.__qualname__}
+            if self.depth > 40:
+                raise Unsupported("inline recursion too deep")
+            return Interp(self.ctx, load_function(fn.__module__ + "." + fn.__qualname__), self.depth + 1).call(args, kwargs)
         raise Unsupported("call to %r without contract at %s:%d" % (getattr(fn, "__qualname__", fn), self.info.qualname, node.lineno))
 
 
@@ -1191,6 +1203,11 @@ class _BoundNative:
             return None
         if isinstance(o, list) and n == "extend":
             o.extend(interp.as_sequence(args[0], node))
+            return None
+        if isinstance(o, set) and n == "add":
+            if is_sym(args[0]) or isinstance(args[0], SRec):
+                raise Unsupported("set.add of a symbolic value at line %d" % node.lineno)
+            o.add(args[0])
             return None
         if isinstance(o, dict) and n == "get":
             k = args[0]
@@ -1389,8 +1406,17 @@ def _binop_fn(astop):
     return f
 
 
+def _b_set(interp, node, *args):
+    if not args:
+        return set()
+    seq = interp.as_sequence(args[0], node)
+    if any(is_sym(a) or isinstance(a, SRec) for a in seq):
+        raise Unsupported("set of symbolic values at line %d" % node.lineno)
+    return set(seq)
+
+
 _BUILTINS = {
-    id(int): _b_int, id(str): _b_str, id(abs): _b_abs, id(max): _minmax(True), id(min): _minmax(False),
+    id(set): _b_set, id(int): _b_int, id(str): _b_str, id(abs): _b_abs, id(max): _minmax(True), id(min): _minmax(False),
     id(len): _b_len, id(all): _b_all, id(any): _b_any, id(isinstance): _b_isinstance, id(tuple): _b_tuple,
     id(list): _b_list, id(range): _b_range, id(bool): _b_bool, id(sorted): _b_sorted,
     id(operator.eq): _cmp_op(ast.Eq), id(operator.ne): _cmp_op(ast.NotEq), id(operator.lt): _cmp_op(ast.Lt),
